@@ -288,7 +288,15 @@ class Result:
 def conc_run(harness, values, twin_label=None, tier="quick", seed=0, params=None):
     env = Env("conc", values=values, twin_label=twin_label, tier=tier, seed=seed, params=params)
     with np.errstate(all="ignore"):
-        harness(env)
+        try:
+            harness(env)
+        except (Unsupported, HarnessError, ReplayInvalid, AssertionError, NotImplementedError):
+            raise
+        except Exception as e:
+            tbk = traceback.extract_tb(e.__traceback__)
+            if not any("/repo/src/pyhf/" in fr.filename for fr in tbk):
+                raise
+            env.fail("<unexpected-exception>", f"pyhf raised {type(e).__name__}: {str(e)[:200]}", key=f"unexpected-exception:{type(e).__name__}")
     return env
 
 
@@ -338,7 +346,17 @@ def run_item(harness, item, *, tier="quick", max_paths=256, timeout_ms=20000, ce
     def one_run(twin_label=None, collect=True):
         env = Env("sym", tier=tier, seed=seed, twin_label=twin_label, params=params)
         t0 = time.time()
-        harness(env)
+        try:
+            harness(env)
+        except (Unsupported, HarnessError, ReplayInvalid, PathBudgetExceeded, AssertionError, NotImplementedError):
+            raise
+        except Exception as e:  # the real code raised where the harness expected it to work
+            tbk = traceback.extract_tb(e.__traceback__)
+            where = next((f"{fr.filename.split('/pyhf/')[-1]}:{fr.name}" for fr in reversed(tbk) if "/repo/src/pyhf/" in fr.filename), "harness")
+            if where == "harness":
+                raise
+            env.fail("<unexpected-exception>", f"pyhf raised {type(e).__name__}: {str(e)[:200]} in {where} on an input the property covers",
+                     key=f"unexpected-exception:{type(e).__name__}")
         res.sym_time += time.time() - t0
         out = {"sat": [], "unknown": [], "n": 0}
         impl_terms = {}
